@@ -11,8 +11,7 @@ impl InstructionGenerator {
         args: Expressions,
         pos: Position,
     ) {
-        let args = self.freeze_by_ref_arg_subscripts(args);
-        self.generate_push_unnamed_args_instructions(&args, pos);
+        let args = self.generate_push_unnamed_args_instructions(args, pos);
         self.push(Instruction::PushStack, pos);
         self.push(Instruction::BuiltInFunction(function_name), pos);
         self.generate_stash_by_ref_args(&args);
@@ -60,8 +59,7 @@ impl InstructionGenerator {
         args: Expressions,
         pos: Position,
     ) {
-        let args = self.freeze_by_ref_arg_subscripts(args);
-        self.generate_push_unnamed_args_instructions(&args, pos);
+        let args = self.generate_push_unnamed_args_instructions(args, pos);
         self.push(Instruction::PushStack, pos);
         self.push(Instruction::BuiltInSub(name), pos);
         self.generate_stash_by_ref_args(&args);
@@ -75,7 +73,6 @@ impl InstructionGenerator {
         args: Expressions,
     ) {
         let Positioned { element: name, pos } = function_name;
-        let args = self.freeze_by_ref_arg_subscripts(args);
         let qualified_name = name.demand_qualified();
         let scope_name = ScopeName::Function(qualified_name.clone());
         // cloning to fight the borrow checker
@@ -84,7 +81,7 @@ impl InstructionGenerator {
             .get_subprogram_info(&scope_name)
             .params
             .clone();
-        self.generate_push_named_args_instructions(&function_parameters, &args, pos);
+        let args = self.generate_push_named_args_instructions(&function_parameters, args, pos);
         self.push_stack(scope_name.clone(), pos);
         let index = self.instructions.len();
         self.push(Instruction::PushRet(index + 2), pos);
@@ -104,7 +101,6 @@ impl InstructionGenerator {
 
     pub fn generate_sub_call_instructions(&mut self, sub_call: SubCall, pos: Position) {
         let (name, args) = sub_call.into();
-        let args = self.freeze_by_ref_arg_subscripts(args);
         let scope_name = ScopeName::Sub(name);
         // cloning to fight the borrow checker
         let sub_impl_parameters: Vec<Parameter> = self
@@ -112,7 +108,7 @@ impl InstructionGenerator {
             .get_subprogram_info(&scope_name)
             .params
             .clone();
-        self.generate_push_named_args_instructions(&sub_impl_parameters, &args, pos);
+        let args = self.generate_push_named_args_instructions(&sub_impl_parameters, args, pos);
         self.push_stack(scope_name.clone(), pos);
         let index = self.instructions.len();
         self.push(Instruction::PushRet(index + 2), pos); // points to "generate_stash_by_ref_args"
@@ -128,17 +124,20 @@ impl InstructionGenerator {
     /// block (like the limit of a FOR loop), and the argument uses that variable: otherwise
     /// `S I%, A(I%)` would write back to another element when S changes I%, and a
     /// function call inside a subscript would run twice.
-    fn freeze_by_ref_arg_subscripts(&mut self, args: Expressions) -> Expressions {
-        let mut counter: usize = 0;
-        args.into_iter()
-            .map(|Positioned { element: arg, pos }| {
-                if arg.is_by_ref() {
-                    self.freeze_subscripts(arg, pos, &mut counter).at_pos(pos)
-                } else {
-                    arg.at_pos(pos)
-                }
-            })
-            .collect()
+    /// The arguments are evaluated left to right: the subscripts of an argument are
+    /// evaluated when its turn comes, after the arguments before it (`S F%(I%), A(I%)`
+    /// uses the I% that F% left behind).
+    fn freeze_by_ref_arg_subscripts(
+        &mut self,
+        arg: ExpressionPos,
+        counter: &mut usize,
+    ) -> ExpressionPos {
+        let Positioned { element: arg, pos } = arg;
+        if arg.is_by_ref() {
+            self.freeze_subscripts(arg, pos, counter).at_pos(pos)
+        } else {
+            arg.at_pos(pos)
+        }
     }
 
     fn freeze_subscripts(
@@ -196,33 +195,53 @@ impl InstructionGenerator {
         }
     }
 
+    /// Returns the arguments as they must be used after the call, for the copy-back:
+    /// with the subscripts of array elements replaced by the hidden variables that hold
+    /// their values.
     fn generate_push_named_args_instructions(
         &mut self,
         param_names: &[Parameter],
-        args: &Expressions,
+        args: Expressions,
         pos: Position,
-    ) {
+    ) -> Expressions {
         self.push(Instruction::BeginCollectArguments, pos);
-        for (param_name, Positioned { element: arg, pos }) in param_names.iter().zip(args.iter()) {
+        let mut counter: usize = 0;
+        let mut frozen_args: Expressions = vec![];
+        for (param_name, arg) in param_names.iter().zip(args) {
+            let arg = self.freeze_by_ref_arg_subscripts(arg, &mut counter);
+            let pos = arg.pos;
             self.generate_expression_instructions_casting(
-                arg.clone().at(pos),
+                arg.clone(),
                 param_name.expression_type(),
             );
-            self.push(Instruction::PushNamed(param_name.clone()), *pos);
+            self.push(Instruction::PushNamed(param_name.clone()), pos);
+            frozen_args.push(arg);
         }
+        frozen_args
     }
 
-    fn generate_push_unnamed_args_instructions(&mut self, args: &Expressions, pos: Position) {
+    /// Returns the arguments as they must be used after the call (see above).
+    fn generate_push_unnamed_args_instructions(
+        &mut self,
+        args: Expressions,
+        pos: Position,
+    ) -> Expressions {
         self.push(Instruction::BeginCollectArguments, pos);
-        for Positioned { element: arg, pos } in args {
-            if arg.is_by_ref() {
-                self.generate_expression_instructions_optionally_by_ref(arg.clone().at(pos), false);
-                self.push(Instruction::PushUnnamedByRef, *pos);
+        let mut counter: usize = 0;
+        let mut frozen_args: Expressions = vec![];
+        for arg in args {
+            let arg = self.freeze_by_ref_arg_subscripts(arg, &mut counter);
+            let pos = arg.pos;
+            if arg.element.is_by_ref() {
+                self.generate_expression_instructions_optionally_by_ref(arg.clone(), false);
+                self.push(Instruction::PushUnnamedByRef, pos);
             } else {
-                self.generate_expression_instructions(arg.clone().at(pos));
-                self.push(Instruction::PushUnnamedByVal, *pos);
+                self.generate_expression_instructions(arg.clone());
+                self.push(Instruction::PushUnnamedByVal, pos);
             }
+            frozen_args.push(arg);
         }
+        frozen_args
     }
 
     fn generate_stash_by_ref_args(&mut self, args: &Expressions) {
